@@ -973,6 +973,20 @@ func cvbC10(c *ctx) {
 }
 
 func cvbC11(c *ctx) {
+	// refused handshakes that carry a body (every rejection of the library's upgrader does), with and without
+	// "Connection: close": OnResponse gets head and body, the outcome is unchanged
+	for _, t := range []string{
+		"HTTP/1.1 400 Bad Request\r\nContent-Type: text/plain\r\nContent-Length: 11\r\n\r\nbad request",
+		"HTTP/1.1 400 Bad Request\r\nConnection: close\r\nContent-Length: 11\r\n\r\nbad request",
+		"HTTP/1.1 403 Forbidden\r\nContent-Length: 9\r\nConnection: close\r\nX-Why: policy\r\n\r\nforbidden",
+		"HTTP/1.1 426 Upgrade Required\r\nSec-WebSocket-Version: 13\r\nconnection: Close\r\ncontent-length: 300\r\n\r\n" + strings.Repeat("u", 300),
+		"HTTP/1.1 500 Internal Server Error\r\nContent-Length: 0\r\nConnection: close\r\n\r\n",
+	} {
+		for _, rb := range []int{0, 16} {
+			dbd(c, []byte(t), nil, rb, dcfg{}, true, true)
+			dbd(c, []byte(t), []int{9, 1, 40}, rb, dialCfgs[1], false, true)
+		}
+	}
 	// Responses that net/http's parser refuses (DebugDialer's prefetch falls back to "all bytes read"): delivered
 	// in one piece and with nothing behind them, so that "the response bytes" are not in doubt.
 	//
